@@ -148,8 +148,15 @@ def server_case(ctx, kind, present, evkind, unrelated, has_method, co, rng,
     # on the server "connect_error" is an ordinary event name
     event = {'ordinary': rng.choice(['ev', 'my_event', 'x1',
                                      'connect_error']),
-             'connect': 'connect', 'disconnect': 'disconnect'}[evkind]
-    reserved = evkind != 'ordinary'
+             'connect': 'connect', 'disconnect': 'disconnect',
+             # an event the client literally names "*": an ordinary event
+             # name for which no specific handler can exist (that key is the
+             # catch-all registration), so targets 1 and 3 are not available
+             'star': '*'}[evkind]
+    if evkind == 'star':
+        present = set(present) - {1, 3}
+        ctx.count('events_literally_named_star')
+    reserved = evkind not in ('ordinary', 'star')
     d = D.make_drive(kind, async_handlers=False, namespaces='*')
     rec = Rec()
     try:
@@ -376,6 +383,7 @@ def run(ctx):
     for side, kinds in (('server', ('sync', 'async')),
                         ('client', ('sync', 'async'))):
         evkinds = ['ordinary', 'connect', 'disconnect'] + (
+            ['star'] if side == 'server' else []) + (
             ['connect_error'] if side == 'client' else [])
         for kind in kinds:
             for co in ((True, False) if kind == 'async' else (False,)):
